@@ -52,6 +52,7 @@ KIND_LINE_MODEL = "line:output-differs-from-state-machine-model"
 KIND_LINE_SPEC = "line:output-is-not-the-barcode-of-the-path-complex"
 KIND_MODEL_SPEC = "line:model-disagrees-with-specification"
 KIND_ORACLE = "oracle:certificate-or-cross-check-failed"
+OK_TIES = "ok:index-mode-equal-values-matched-in-another-admissible-order"   # not a violation, counted
 
 
 class CountSet:
@@ -128,6 +129,8 @@ def classify_rect(inp, hans, oans):
     if hans == oans:
         return None
     w = inp.split()
+    if len(w) < 5:
+        return (KIND_ORACLE, "malformed case %s" % inp)
     mode, rows, cols = w[2], int(w[3]), int(w[4])
     vals = [int(x) for x in w[5:]]
     side2 = min(rows, cols) == 2
@@ -156,7 +159,8 @@ def classify_rect(inp, hans, oans):
             same_min = False
         if same_min and tv(ph[0]) == tv(po[0]) and tv(ph[1]) == tv(po[1]) and tv(ph[0]) is not None \
                 and len(ph[0]) == len(po[0]) and len(ph[1]) == len(po[1]):
-            return (KIND_RECT_IDX_TIES, "%s: index pairs %s differ from the tie rule's %s but carry the same values" % (inp, hans, oans))
+            return (KIND_RECT_IDX_TIES, "%s: index pairs %s differ from the tie rule's %s but carry the same values" % (inp, hans, oans)) \
+                if len(set(vals)) == len(vals) else (OK_TIES, "")
     return (KIND_SIDE2 if side2 else KIND_RECT, "%s: implementation answers '%s', cubical barcode is '%s'" % (inp, hans, oans))
 
 
@@ -308,6 +312,11 @@ RECT_CORPUS = [
 ]
 
 
+def rect_op(rows, cols):
+    """R = certified dense reduction in the oracle (cells <= 130), RF = its fast reduction"""
+    return "R" if (2 * rows + 1) * (2 * cols + 1) <= 130 else "RF"
+
+
 def rect_line(op, ty, mode, rows, cols, vals):
     return "%s %s %s %d %d %s" % (op, ty, mode, rows, cols, " ".join(map(str, vals)))
 
@@ -398,7 +407,7 @@ def shrink_rect(hbin, obin, inp, kind):
             cands.append((rows, cols, [sv.index(v) for v in vals]))
         if not cands:
             break
-        lines = [rect_line("R", ty, mode, r, c, v) for (r, c, v) in cands]
+        lines = [rect_line(rect_op(r, c), ty, mode, r, c, v) for (r, c, v) in cands]
         h, o = run_lines(hbin, obin, lines, nchunks=4)
         hit = None
         for (r, c, v), l, a, b in zip(cands, lines, h, o):
@@ -409,7 +418,7 @@ def shrink_rect(hbin, obin, inp, kind):
         if not hit:
             break
         rows, cols, vals = hit
-    return rect_line("R", ty, mode, rows, cols, vals)
+    return rect_line(rect_op(rows, cols), ty, mode, rows, cols, vals)
 
 
 # ------------------------------------------------------------------------------------------------ the check
@@ -434,7 +443,7 @@ def check(ctx, replay=None):
         hb = hdbg if build == "dbg" else hrel
         h, o = run_lines(hb, orc, [case_line], nchunks=1)
         kw = (classify_line if case_line.startswith("L") else classify_rect)(case_line, h[0], o[0])
-        if not kw:
+        if not kw or kw[0] == OK_TIES:
             case_line, kw = inp, kind_what
             h, o = run_lines(hb, orc, [case_line], nchunks=1)
         res.violation(kw[0], kw[1], {"line": case_line, "build": build, "original": inp}, expected=o[0], observed=h[0],
@@ -450,8 +459,8 @@ def check(ctx, replay=None):
         ctx.log("replay: %s" % line)
         ctx.log("  implementation: %s" % h[0])
         ctx.log("  oracle        : %s" % o[0])
-        kw = (classify_line if line.startswith("L") else classify_rect)(line.replace("RF ", "R ", 1), h[0], o[0])
-        if kw:
+        kw = (classify_line if line.startswith("L") else classify_rect)(line, h[0], o[0])
+        if kw and kw[0] != OK_TIES:
             res.violation(kw[0], kw[1], dict(c), expected=o[0], observed=h[0])
         res.rule = "replay of one stored case"
         return core.finish(ctx, None, res, TRUSTED, ASSUMPTIONS, LEVEL, CHECKER, correspondence_name=CORRESPONDENCE)
@@ -501,10 +510,11 @@ def check(ctx, replay=None):
         cnt = 0
         nontriv = 0
         zero = 0
+        ties = 0
         bad = []
         if len(h) != len(o) or not h or h[-1] != o[-1] or not h[-1].startswith("END"):
             bad.append(("enumeration out of step", text, (h[-1:] or [""])[0], (o[-1:] or [""])[0]))
-            return (r, c, mode, 0, 0, 0, bad)
+            return (r, c, mode, 0, 0, 0, 0, bad)
         for a, b in zip(h[:-1], o[:-1]):
             cnt += 1
             if " R 0: | 1: | " not in b:
@@ -521,20 +531,24 @@ def check(ctx, replay=None):
                 for m, xa, xb in zip(("v", "i"), ras, rbs):
                     inp = rect_line("R", "d", m, r, c, va.split(","))
                     kw = classify_rect(inp, xa, xb)
-                    if kw and kw[0] == KIND_ZERO:
+                    if kw and kw[0] == OK_TIES:
+                        ties += 1
+                    elif kw and kw[0] == KIND_ZERO:
                         zero += 1
                         if zero == 1:
                             bad.append((KIND_ZERO, inp, xa, xb))
                     elif kw and len(bad) < 40:
                         bad.append((kw[0], inp, xa, xb))
-        return (r, c, mode, cnt, nontriv, zero, bad)
+        return (r, c, mode, cnt, nontriv, zero, ties, bad)
     with ThreadPoolExecutor(max_workers=max(2, core.NPROC // 2)) as ex:
         results = list(ex.map(do_enum, jobs))
     per_shape = {}
     zero_total = 0
     zero_example = None
     confirm = []
-    for (r, c, mode, cnt, nontriv, zero, bad) in results:
+    ties_total = 0
+    for (r, c, mode, cnt, nontriv, zero, ties, bad) in results:
+        ties_total += ties
         key = "rect:enum %dx%d both modes" % (r, c)
         per_shape[key] = per_shape.get(key, 0) + cnt
         res.evaluations += 2 * cnt
@@ -558,7 +572,7 @@ def check(ctx, replay=None):
         bykind = {}
         for l, a, b in zip(lines, h, o):
             kw = classify_rect(l, a, b)
-            if kw:
+            if kw and kw[0] != OK_TIES:
                 bykind.setdefault(kw[0], []).append((l, kw))
         for kind, lst in bykind.items():
             report(lst[0][0], lst[0][1], "dbg")
@@ -582,17 +596,21 @@ def check(ctx, replay=None):
                       ("cells<=25" if rows * cols <= 25 else "cells>25")), w[2], w[1]))
             if "R 0: | 1: | " not in b:
                 res.distinct.add(inp)
-            kw = classify_rect(inp.replace("RF ", "R ", 1), a, b)
-            if kw and kw[0] == KIND_ZERO:
+            kw = classify_rect(inp, a, b)
+            if kw and kw[0] == OK_TIES:
+                ties_total += 1
+            elif kw and kw[0] == KIND_ZERO:
                 zero_total += 1
                 zero_example = zero_example or (KIND_ZERO, inp, a, b)
             elif kw:
-                seen_kinds.setdefault(kw[0], []).append((inp.replace("RF ", "R ", 1), kw, build))
+                seen_kinds.setdefault(kw[0], []).append((inp, kw, build))
     for kind, lst in seen_kinds.items():
         lst.sort(key=lambda t: len(t[0]))
         report(lst[0][0], lst[0][1], lst[0][2])
         for (inp, kw, build) in lst[1:6]:
             res.violation(kw[0], kw[1], {"line": inp, "build": build})
+    if ties_total:
+        res.count("rect:index-mode answers matching equal values in another order than (value, index) (same values; accepted)", ties_total)
     if zero_example:
         _, inp, a, b = zero_example
         small = shrink_rect(hdbg, orc, inp, KIND_ZERO)
